@@ -18,7 +18,19 @@ RULE = ("four streams. hist: histories of 5-30 requests over ONE engine; one his
         "list/object literals, named/inline fragments), the same shape with other argument values and other operations; "
         "every history runs under the default option set and a sample (quick) or all (thorough) of the 16 combinations of "
         "de-duplication / multi-fetch / scheduler / minification; every request also runs alone on a fresh default engine, "
-        "alone on a fresh engine with the same options, and on the monolithic reference executor. det: generated and "
+        "alone on a fresh engine with the same options, and on the monolithic reference executor. A further hist batch runs "
+        "on three seed-parametrised fixture families (harness/c09lab/families.go; a member is rebuilt from its name): ifh = an "
+        "interface with 2-3 implementers and an entity hop declared on the interface whose entity has leaves in 1-2 other "
+        "subgraphs, operations select the hop on the interface-typed field AND under some implementers with equal nested "
+        "selections (identical entity fetches, unscoped and type-scoped, that de-duplication folds), the data holds every "
+        "implementer, the option set that differs from the default in de-duplication only always runs; rq2 = 2-3 provider "
+        "subgraphs each owning one leaf, one subgraph with one @requires field per provider, 2-3 root fields (single/list "
+        "parents, one or two entity types, optionally two members sharing a provider), a directed operation selects requires "
+        "fields fed by different providers below different parents, and multi-fetch x scheduler runs ungated and under GATED "
+        "completion orders (every subgraph response is held; whenever the gateway is quiet the held response of the subgraph "
+        "first in a priority list is released; each provider answers last once; the order is part of the run label "
+        "'d+m+s+z- order=root>calc>prov1>prov0'); genh = the shared generator with AllKnobsV2 and interfaces+scopedhops forced on. "
+        "det: generated and "
         "corpus operations planned three times with fresh planners, twice with one reused planner (other operations in "
         "between), and in M freshly started processes, under four (quick) or sixteen option sets, plus the subgraph "
         "requests of fresh engines. dedup: generated flat fetch lists (1-10 fetches, keys from a small pool, 1 in 10 "
@@ -64,7 +76,7 @@ def hist_distribution(cases):
         m = re.match(r"\(c09 hist ([\w-]+) \d+ \(flags (\w) (\w)\)", c)
         if not m:
             continue
-        cn = "generated" if m.group(1).startswith("gen-") else m.group(1)
+        cn = "generated" if m.group(1).startswith("gen-") else re.sub(r"-\d+-\d+$", "", m.group(1))
         d["by_config"][cn] = d["by_config"].get(cn, 0) + 1
         if m.group(2) == "t" and m.group(3) == "t":
             d["with_fork_and_join"] += 1
@@ -80,6 +92,8 @@ def hist_distribution(cases):
         for r in parts[1:]:
             name = r[:8]
             d["option_sets"][name] = d["option_sets"].get(name, 0) + 1
+            if r[8:].startswith(" order="):
+                d["gated_runs"] = d.get("gated_runs", 0) + 1
             d["cache_hits"] += r.count(" (rs t ")
             d["cache_misses"] += r.count(" (rs f ")
             sigs.add(tuple(re.findall(r'\((?:"[0-9a-f]{16}" ?)*\)', r)[0::3]))
@@ -152,6 +166,15 @@ def _batches(chk, exe, model, state, samples, quick):
         vlib.digest_batch(chk, b[0], b[1], classify, state)
         dist["hist"] = hist_distribution(b[0])
         samples += [c[:400] for c in sorted(b[0], key=len)[:1]]
+    # fixture families (harness/c09lab/families.go): interface hops selected bare and under implementers (what
+    # de-duplication folds), two @requires fields fed by different providers under multi-fetch x scheduler with gated
+    # completion orders, the shared generator with knob scopedhops
+    b = vlib.run_batch(chk, "%s hist -seed %d -n %d -fam ifh,rq2,genh -opts sample3 -minlen 5 -maxlen 9 -workers 8 -out {out}" %
+                       (exe, seed, 45 if quick else 600), model, "hist_fam", timeout=20000)
+    if b:
+        vlib.digest_batch(chk, b[0], b[1], classify, state)
+        dist["hist_families"] = hist_distribution(b[0])
+        samples += [c[:400] for c in sorted(b[0], key=len)[:1]]
     chk.coverage["distribution"] = dist
 
 
@@ -186,7 +209,10 @@ def run(chk):
         "planner configuration, processor options and plan cache, the reflective plan dump)",
         "compared observables: response data exactly, errors as the sorted multiset of (message, path), an Execute error as one "
         "opaque outcome; subgraph requests as the SET of (subgraph, re-printed operation, variables) -- the loader's single flight "
-        "(property C11) makes the number of identical concurrent requests timing dependent",
+        "(property C11) makes the number of identical concurrent requests timing dependent; a top-level extensions member is compared when present",
+        "gated runs (harness/c09lab/gate.go): responses are held in fedlab's BeforeRespond hook and released by subgraph priority "
+        "after 3 ms without a new subgraph request; a release that comes before a follow-up request arrived only yields another "
+        "completion order, never a verdict",
     ]
     _proofs(chk)
     ok, log = vlib.build_model("C09")
@@ -205,6 +231,10 @@ def run(chk):
         for k in range(1, 4):
             bb = vlib.run_batch(chk, "%s hist -seed %d -n %d -opts all -workers 8 -out {out}" % (exe, chk.seed * 1000 + k, 60), model,
                                 "more_hist%d" % k, timeout=6000)
+            if bb:
+                vlib.digest_batch(chk, bb[0], bb[1], classify, st)
+            bb = vlib.run_batch(chk, "%s hist -seed %d -n %d -fam ifh,rq2,genh -opts sample3 -minlen 5 -maxlen 9 -workers 8 -out {out}" %
+                                (exe, chk.seed * 1000 + k, 90), model, "more_hist_fam%d" % k, timeout=6000)
             if bb:
                 vlib.digest_batch(chk, bb[0], bb[1], classify, st)
             bb = vlib.run_batch(chk, "%s dedup -seed %d -n %d -out {out}" % (exe, chk.seed * 1000 + k, 20000), model, "more_dedup%d" % k,
